@@ -57,6 +57,11 @@ E1 = {
                                   OpKinds={"next", "foreach", "eforeach", "fold", "values"}), T_INV, True),
     "ticket_owner": ("Ticket", cfg(T_BASE, OwnerOps=2, Sizes={3}, TakeSet={9, 1},
                                    OpKinds={"next", "chunk", "skip", "intoseq", "hasmore"}), T_INV, True),
+    # ownership of the elements of an owning wrapped iterator (slots of the buffered iterators, predicted destructor runs)
+    "ticket_own": ("Ticket", cfg(T_BASE, SrcLen=3, MaxOps=2, OwnerOps=1, Sizes={2}, TakeSet={9, 1},
+                                 OpKinds={"next", "chunk", "bnew", "bnext", "bdrop", "intoseq", "drop"}), T_INV + ["Inv_OwnEnd"], True),
+    "ticket_own_seq": ("Ticket", cfg(T_BASE, NT=1, SrcLen=4, MaxOps=4, OwnerOps=1, Sizes={2}, TakeSet={9, 1},
+                                     OpKinds={"next", "bnew", "bnext", "bdrop", "foreach", "intoseq", "drop"}), T_INV + ["Inv_OwnEnd"], True),
     "ticket_panic1": ("Ticket", cfg(T_BASE, PanicAt=1, Sizes={2}, OpKinds={"next", "chunk", "bnew", "bnext"}), T_INV, True),
     "ticket_panic2": ("Ticket", cfg(T_BASE, PanicAt=2, Sizes={2}, OpKinds={"next", "chunk", "foreach"}), T_INV, True),
     "ticket_revive": ("Ticket", cfg(T_BASE, Revive=1, SrcLen=1, Sizes={2}, OpKinds={"next", "chunk", "bnew", "bnext", "hasmore"}), T_REVIVE_INV, True),
@@ -92,6 +97,8 @@ E1_NEGATIVE = {
     # not a mutation but the design itself on a 2-bit machine word: a chunk request of 3 and two single pulls wrap the
     # ticket dispenser, two threads hold ticket 0 (model-level witness of known finding G6)
     "wrap_small_word": ("Ticket", cfg(T_BASE, NT=3, MaxOps=1, SrcLen=2, MOD=4, Sizes={3}, OpKinds={"next", "chunk"}), ["Inv_C07_Mutex"], False),
+    "neg_overwrite": ("Ticket", cfg(T_BASE, NT=1, SrcLen=4, MaxOps=4, OwnerOps=1, Sizes={2}, TakeSet={9, 1}, Mutant="overwrite_forgets",
+                                    OpKinds={"next", "bnew", "bnext", "bdrop", "intoseq", "drop"}), ["Inv_OwnEnd"], True),
     "neg_revive": ("Ticket", cfg(T_BASE, Revive=1, SrcLen=1, Sizes={2}, Mutant="short_chunk_no_completed", OpKinds={"next", "chunk", "bnew", "bnext"}), T_REVIVE_INV, True),
 }
 
